@@ -385,6 +385,13 @@ class Evaluator:
             if isinstance(s, ast.Assign) and len(s.targets) == 1 and isinstance(s.targets[0], (ast.Tuple, ast.List)):
                 _bind(s.targets[0], self.eval(s.value), self.env)
                 continue
+            if isinstance(s, ast.Assign) and all(isinstance(t, ast.Name) for t in s.targets):
+                v = self.eval(s.value)  # a = b = c = <value>
+                for t in s.targets:
+                    self.env[t.id] = v
+                continue
+            if isinstance(s, (ast.FunctionDef, ast.AsyncFunctionDef)):
+                continue  # local helpers are called through the evaluator's call hook
             if isinstance(s, ast.Pass):
                 continue
             raise NotStatic(f"statement {type(s).__name__}")
